@@ -661,3 +661,67 @@ def size_ladder(ctx, k: int, small=12, mid=60, large=300):
     if u < 0.9:
         return mid
     return large
+
+
+# ------------------------------------------------------------------ re-entrant use (round 11)
+NESTED_STATS = {"calls_from_inside_a_traversal": 0}
+
+
+def host_tree(seed: int = 0, n: int = 11):
+    """A small well-formed tree of another shape than (almost) anything under test, to be walked
+    while the library is called from its callbacks."""
+    from swcgeom.core import Tree
+
+    rng = np.random.default_rng(seed)
+    pid = np.array([-1] + [int(rng.integers(max(0, i - 3), i)) for i in range(1, n)], dtype=np.int32)
+    xyz = rng.normal(0, 5, (n, 3)).astype(np.float32)
+    return Tree(n, pid=pid, x=xyz[:, 0], y=xyz[:, 1], z=xyz[:, 2],
+                r=np.full(n, 1.0, dtype=np.float32),
+                type=np.array([1] + [3] * (n - 1), dtype=np.int32))
+
+
+def inside_traversal(fn, host=None, at=None):
+    """Call ``fn()`` from inside the callbacks of a traversal that is in progress over ``host``
+    (once from the enter callback of node ``at``, once from its leave callback), as user code that
+    computes something per visited node does.  Returns ``(enter_result, leave_result, problem)``:
+    ``problem`` describes how the *outer* walk departed from structural recursion (it must not:
+    every node entered once with its parent's value, left once with its children's values)."""
+    host = host_tree() if host is None else host
+    n = host.number_of_nodes()
+    pid = np.array(host.pid())
+    kids = {}
+    for c, p in enumerate(pid):
+        kids.setdefault(int(p), []).append(c)
+    at = n // 2 if at is None else at
+    out, seen, left, problems = {}, [], [], []
+
+    def enter(node, pv):
+        i = int(node.id)
+        seen.append(i)
+        want = None if pid[i] < 0 else int(pid[i])
+        if pv != want and not problems:
+            problems.append(f"enter(node {i}) received {pv!r}, its parent's value is {want!r}")
+        if i == at:
+            out["enter"] = fn()
+        return i
+
+    def leave(node, vals):
+        i = int(node.id)
+        left.append(i)
+        if sorted(vals) != sorted(kids.get(i, [])) and not problems:
+            problems.append(f"leave(node {i}) received {sorted(vals)!r}, its children returned "
+                            f"{sorted(kids.get(i, []))!r}")
+        if i == at:
+            out["leave"] = fn()
+        return i
+
+    try:
+        ret = host.traverse(enter=enter, leave=leave)
+    except Exception as e:  # the outer walk itself broke down
+        problems.append(f"the outer traversal raised {type(e).__name__}: {str(e)[:120]}")
+        ret = 0
+    NESTED_STATS["calls_from_inside_a_traversal"] += 2
+    if not problems and (sorted(seen) != list(range(n)) or sorted(left) != list(range(n)) or ret != 0):
+        problems.append(f"the outer traversal entered {len(seen)} and left {len(left)} of {n} nodes "
+                        f"(returned {ret!r})")
+    return out.get("enter"), out.get("leave"), (problems[0] if problems else None)
